@@ -9,7 +9,7 @@ From LN Require Import C01Q_Defs.
 Extraction Language OCaml.
 Extract Constant Z.ggcd => "(fun a b -> let g = Big_int_Z.gcd_big_int a b in
   if Big_int_Z.sign_big_int g = 0 then (g, (g, g)) else (g, (Big_int_Z.div_big_int a g, Big_int_Z.div_big_int b g)))".
-Extraction "extracted/c01q_model.ml" QcO QEO qcabs zcmp
+Extraction "extracted/c01q_model.ml" QcO zcmp
   dot vadd vsub vscale mv vm mmul madd msub mscale mdivs outer identity transpose
   sr1_plain sr1_apply sr1 dfp bfgs hoshino_phi hoshino broyden fletcher_phi fletcher scaled_identity quasi_update
   quasi_direction loop1 loop2 lbfgs_scale two_loop lbfgs_direction lbfgs_H0 lbfgs_matrix lbfgs_push
